@@ -294,6 +294,9 @@ func (r *Run) Finish() {
 		r.t.Fatalf("evidence marshal: %v", err)
 	}
 	dir := filepath.Join(Root, "evidence")
+	if d := os.Getenv("VERIF_EVIDENCE_DIR"); d != "" { // mutation rehearsal against a scratch copy: keep /verif/evidence for runs against /repo
+		dir = d
+	}
 	_ = os.MkdirAll(dir, 0o755)
 	if err := os.WriteFile(filepath.Join(dir, r.Prop+".json"), b, 0o644); err != nil {
 		r.t.Fatalf("evidence write: %v", err)
